@@ -241,15 +241,11 @@ def htmlHasInlineChild (c : HtmlCtx) (node : Tree) : Bool :=
     | .element name => c.h.isInline c.env name
     | _ => false
 
-/-- `Pretty::get_indentation` (pretty.rs as it is now: nothing inside `xml:space="preserve"`). -/
-def htmlIndentation (s : PStack) : Nat :=
-  if s.inMixed || s.inSpacePreserve then 0 else (s.reverse.foldl PStack.indentStep (0, false)).1
-
 /-- `Pretty::prettify(node, output)` with the HTML closures: new stack, indentation, newline. -/
 def prettifyHtml (c : HtmlCtx) (suppress : List Nat) (s : PStack) (node : Tree) : Output → PStack × Nat × Bool
-  | .startTagOpen _ => (s, htmlIndentation s, false)
-  | .comment _ => (s, htmlIndentation s, s.getNewline)
-  | .pi _ _ => (s, htmlIndentation s, s.getNewline)
+  | .startTagOpen _ => (s, s.getIndentation, false)
+  | .comment _ => (s, s.getIndentation, s.getNewline)
+  | .pi _ _ => (s, s.getIndentation, s.getNewline)
   | .startTagClose =>
     if node.firstChild?.isSome then
       if !htmlHasInlineChild c node then
@@ -264,7 +260,7 @@ def prettifyHtml (c : HtmlCtx) (suppress : List Nat) (s : PStack) (node : Tree) 
     if node.firstChild?.isSome then
       let noIndentation := s.inMixed || s.inSpacePreserve
       let s' : PStack := s.tail
-      (s', if !noIndentation then htmlIndentation s' else 0, s'.getNewline)
+      (s', if !noIndentation then s'.getIndentation else 0, s'.getNewline)
     else (s, 0, s.getNewline)
   | _ => (s, 0, false)
 
